@@ -166,5 +166,5 @@ var specC13 = Register(&Spec[ArCase]{
 func itoa(i int) string { return errf("%d", i).Error() }
 
 func TestC13_Members(t *testing.T) {
-	specC13.Run(t, genArCase, 10000, 100000)
+	specC13.Run(t, genArCase, 25000, 120000)
 }
